@@ -34,6 +34,23 @@ var Properties = map[string]func(*Ctx){
 	"C12": C12,
 	"C16": C16,
 	"C04": C04,
+	"C15": C15,
+}
+
+func C15(c *Ctx) {
+	R15Socks(c)
+	R15ClosePropagation(c)
+	R4Lockset(c, sharedRelayTables, 10)
+	isRelay := func(fn string) bool {
+		for _, s := range []string{"TaskPrepare", "TaskDispatch", "PortFwd", "SocksClient", "SocksServer", "socks."} {
+			if strings.Contains(fn, s) {
+				return true
+			}
+		}
+		return false
+	}
+	R5RangeMut(c, isRelay, 5)
+	R3LockPair(c, func(fn, lock string) bool { return strings.HasSuffix(lock, "Mtx") }, 10)
 }
 
 func C04(c *Ctx) {
